@@ -100,16 +100,20 @@ COMPONENTS = {
 
 
 # ------------------------------------------------------------------- workers
-_TMP = None
+_TMP = {}
 
 
 def _tmpdir():
-    global _TMP
-    if _TMP is None or not os.path.isdir(_TMP):
-        _TMP = tempfile.mkdtemp(prefix='tsim-w%d-' % os.getpid())
+    """Private scratch directory of *this* process (never inherited over fork)."""
+    pid = os.getpid()
+    d = _TMP.get(pid)
+    if d is None or not os.path.isdir(d):
+        d = tempfile.mkdtemp(prefix='tsim-w%d-' % pid, dir=os.environ.get('TSIM_TMPROOT') or None)
+        _TMP.clear()
+        _TMP[pid] = d
         import atexit
-        atexit.register(lambda p=_TMP: shutil.rmtree(p, ignore_errors=True))
-    return _TMP
+        atexit.register(lambda p=d, me=pid: os.getpid() == me and shutil.rmtree(p, ignore_errors=True))
+    return d
 
 
 def case_digest(case):
@@ -256,6 +260,18 @@ def replay(path, quiet=False):
 
 # ----------------------------------------------------------------------- run
 def run_property(pid, tier='quick', seed=0, budget_s=None, workers=None, scale=1.0, out=sys.stdout):
+    root = tempfile.mkdtemp(prefix='tsim-run-')
+    os.environ['TSIM_TMPROOT'] = root
+    try:
+        return _run_property(pid, tier, seed, budget_s, workers, scale, out)
+    finally:
+        from . import cases as _c
+        _c.close_helpers()
+        shutil.rmtree(root, ignore_errors=True)
+        os.environ.pop('TSIM_TMPROOT', None)
+
+
+def _run_property(pid, tier, seed, budget_s, workers, scale, out):
     spec = PROPS[pid]
     t0 = time.time()
     workers = workers or spec.get('workers') or min(16, os.cpu_count() or 4)
